@@ -252,6 +252,19 @@ func subseqOrder(old, neu []string) bool {
 // afterStep runs the per-step monitors on the acting replica.
 func (x *run) afterStep(rs *repState, s *sim.Step, pre, post *obs, stepErr error) {
 	isMerge := s.Op == "pull" || s.Op == "merge"
+	// ---- what git-bug itself writes obeys the rules it enforces on reading (C03): parents before
+	// children on every clock, one root, creation time on the root
+	if x.on("C03") && (s.Op == "edit" || s.Op == "newbug" || s.Op == "commit" || isMerge) {
+		for id, nb := range post.Bugs {
+			if nb.Err == nil {
+				continue
+			}
+			if pb, ok := pre.Bugs[id]; ok && pb.Err != nil {
+				continue // was already so before this step
+			}
+			x.violate("effect-before-cause", "bug %s on %s: the history stored by %s contradicts its own ancestry: %v", id[:7], rs.r.Name, s.Op, nb.Err)
+		}
+	}
 	// ---- no operation ever disappears from a local ref (C02)
 	if x.on("C02") && s.Op != "remove" {
 		for id, pb := range pre.Bugs {
@@ -301,6 +314,16 @@ func (x *run) afterStep(rs *repState, s *sim.Step, pre, post *obs, stepErr error
 			}
 			if chain[0].Id != model.RefId(ref) {
 				x.violate("id-changed", "identity stored under %s but its first version hashes to %s", model.RefId(ref)[:7], chain[0].Id[:7])
+			}
+			// a stored local chain is a valid identity: no logical clock goes backwards or
+			// disappears from one version to the next (what commit and merge must both refuse)
+			for v := 1; v < len(chain); v++ {
+				for name, t := range chain[v-1].Times {
+					t2, ok := chain[v].Times[name]
+					if !ok || t2 < t {
+						x.violate("invalid-identity-accepted", "identity %s on %s after %s: version %d records clock %s=%d (present %v), the version before it %d", model.RefId(ref)[:7], rs.r.Name, s.Op, v, name, t2, ok, t)
+					}
+				}
 			}
 			o := rs.r.Observer()
 			if gi, err := identity.ReadLocal(o, entity.Id(model.RefId(ref))); err == nil {
